@@ -6,4 +6,4 @@ Extraction "model_ctx.ml"
   N.add N.mul N.div N.modulo N.sub Z.add Z.mul Z.opp Z.of_N Z.abs_N Z.sub Z.ltb
   Context.step Context.init Context.obs Context.user_mods Context.compiled_in Context.kmem Context.internal_mods
   Context.get_latest Context.get_implemented Context.names Context.hash_fields Context.mkey Context.index_of
-  Context.quiescent Context.keeps_features.
+  Context.quiescent.
